@@ -5,6 +5,7 @@ package main
 // non-canonical feature applied at a chosen item.
 
 import (
+	"io"
 	"bytes"
 	"crypto/sha256"
 	"encoding/binary"
@@ -413,10 +414,34 @@ func init() {
 						}
 					}
 					chk("ToSealed", t.id, nil)
-					var buf bytes.Buffer
-					wid, werr := t.tok.ToSealedWriter(&buf, t.priv.priv)
-					if werr == nil && !bytes.Equal(wid.Bytes(), manualCid(buf.Bytes())) {
-						rep.violation(map[string]any{"api": "ToSealedWriter", "token": t.typ + "/" + t.alg}, "CID of the bytes written", wid.String(), "ToSealedWriter reports a CID that is not the CID of what it wrote")
+					// every kind of destination: encoders probe the writer for optional interfaces
+					for _, sk := range sinkKinds() {
+						var wid cid.Cid
+						got, werr := sk.run(func(wr io.Writer) error {
+							var e error
+							wid, e = t.tok.ToSealedWriter(wr, t.priv.priv)
+							return e
+						})
+						if werr != nil {
+							rep.violation(map[string]any{"api": "ToSealedWriter", "writer": sk.name, "token": t.typ + "/" + t.alg}, "success", werr.Error(), "ToSealedWriter fails on a healthy writer")
+						} else if !bytes.Equal(wid.Bytes(), manualCid(got)) {
+							rep.violation(map[string]any{"api": "ToSealedWriter", "writer": sk.name, "token": t.typ + "/" + t.alg}, "CID of the bytes written", wid.String(),
+								"ToSealedWriter ("+sk.name+") reports a CID that is not the CID of what it wrote")
+						} else if _, rid, rerr := token.FromSealed(got); rerr != nil || rid != wid {
+							rep.violation(map[string]any{"api": "ToSealedWriter", "writer": sk.name, "token": t.typ + "/" + t.alg}, "written bytes unseal under the reported CID", fmt.Sprint(rid, rerr),
+								"what ToSealedWriter ("+sk.name+") wrote does not unseal under the CID it reported")
+						}
+					}
+					for _, src := range sourceKinds() {
+						_, idr, er := token.FromSealedReader(src.mk(t.sealed))
+						chk("token.FromSealedReader("+src.name+")", idr, er)
+						if t.typ == "dlg" {
+							_, b, e := delegation.FromSealedReader(src.mk(t.sealed))
+							chk("delegation.FromSealedReader("+src.name+")", b, e)
+						} else {
+							_, b, e := invocation.FromSealedReader(src.mk(t.sealed))
+							chk("invocation.FromSealedReader("+src.name+")", b, e)
+						}
 					}
 					_, id1, e1 := token.FromSealed(t.sealed)
 					chk("token.FromSealed", id1, e1)
